@@ -435,6 +435,11 @@ class OpaquePubKey(PubKey):  # pragma: no cover
     def __iter__(self):
         yield self.data
 
+    def __copy__(self):
+        pk = super(OpaquePubKey, self).__copy__()
+        pk.data = copy.copy(self.data)
+        return pk
+
     def __pubkey__(self):
         return NotImplemented
 
